@@ -41,6 +41,24 @@ def strip (w : Cand) (b : Ballot) : Ballot := b.filterMap (stripItem w)
 /-- the ballot with `w` taken out and re-inserted as a rank of its own at index `i` -/
 def lift (w : Cand) (i : Nat) (b : Ballot) : Ballot := (strip w b).take i ++ RankItem.one w :: (strip w b).drop i
 
+/-- `w` joins a place: a single candidate becomes a shared rank, a shared rank gets one more member (ascending ids) -/
+def joinItem (w : Cand) : RankItem → RankItem
+  | .one c => .shared (if w < c then [w, c] else [c, w])
+  | .shared cs => .shared (cs.filter (fun c => c < w) ++ w :: cs.filter (fun c => w < c))
+
+/-- the ballot on which `w` has left its place (index `r + 1`) and JOINED the place directly above it (index `r`):
+    a strict rank becomes a shared rank with the former superior, a shared rank above gets `w` as a further member -/
+def joinAboveAt (w : Cand) (r : Nat) (b : Ballot) : Ballot :=
+  match b[r]?, b[r + 1]? with
+  | some sup, some it => b.take r ++ joinItem w sup :: ((stripItem w it).toList ++ b.drop (r + 2))
+  | _, _ => b
+
+/-- `w` joins the rank directly above its own (nothing happens when `w` is unranked or stands first) -/
+def joinAbove (w : Cand) (b : Ballot) : Ballot :=
+  match b.findIdx? (fun it => decide (w ∈ it.cands)) with
+  | some (r + 1) => joinAboveAt w r b
+  | _ => b
+
 /-- index of the place where `w` stands -/
 def posOf (w : Cand) (b : Ballot) : Option Nat := b.findIdx? (fun it => decide (w ∈ it.cands))
 
